@@ -32,6 +32,75 @@ type Case struct {
 	G  gen.G   `json:"g"`
 	Q  []gen.P `json:"q,omitempty"`
 	T  gen.P   `json:"t"`
+	// K: the whole case (G, Q and T) is multiplied by 2^K before anything is computed, exactly in
+	// float64. Areas scale by 4^K, lengths, distances and centroids by 2^K, in orb and in the model
+	// alike; every tolerance is relative to the scaled case's own extent, so an absolute epsilon in the
+	// code under test (|area| < 1e-10 is zero, segments shorter than 1e-9 are skipped) fails here.
+	K int `json:"k"`
+}
+
+// mapPoints applies f to every coordinate pair of g.
+func mapPoints(g orb.Geometry, f func(orb.Point) orb.Point) orb.Geometry {
+	pts := func(ps []orb.Point) []orb.Point {
+		out := make([]orb.Point, len(ps))
+		for i, p := range ps {
+			out[i] = f(p)
+		}
+		return out
+	}
+	switch v := g.(type) {
+	case orb.Point:
+		return f(v)
+	case orb.MultiPoint:
+		return orb.MultiPoint(pts(v))
+	case orb.LineString:
+		return orb.LineString(pts(v))
+	case orb.Ring:
+		return orb.Ring(pts(v))
+	case orb.Bound:
+		return orb.Bound{Min: f(v.Min), Max: f(v.Max)}
+	case orb.MultiLineString:
+		out := make(orb.MultiLineString, len(v))
+		for i, l := range v {
+			out[i] = pts(l)
+		}
+		return out
+	case orb.Polygon:
+		out := make(orb.Polygon, len(v))
+		for i, r := range v {
+			out[i] = pts(r)
+		}
+		return out
+	case orb.MultiPolygon:
+		out := make(orb.MultiPolygon, len(v))
+		for i, p := range v {
+			out[i] = mapPoints(p, f).(orb.Polygon)
+		}
+		return out
+	case orb.Collection:
+		out := make(orb.Collection, len(v))
+		for i, m := range v {
+			out[i] = mapPoints(m, f)
+		}
+		return out
+	}
+	return g
+}
+
+// scaled returns the case multiplied by 2^K (K reset to 0).
+func (c Case) scaled() Case {
+	if c.K == 0 {
+		return c
+	}
+	f := func(p orb.Point) orb.Point { return orb.Point{math.Ldexp(p[0], c.K), math.Ldexp(p[1], c.K)} }
+	out := Case{Op: c.Op, T: gen.FromPt(f(c.T.Pt()))}
+	if c.G.V != nil {
+		out.G = gen.G{V: mapPoints(c.G.V, f)}
+	}
+	for _, q := range c.Q {
+		out.Q = append(out.Q, gen.FromPt(f(q.Pt())))
+	}
+	return out
 }
 
 func finite(v float64) bool { return !math.IsNaN(v) && !math.IsInf(v, 0) }
@@ -67,14 +136,14 @@ func compareMeasure(g orb.Geometry, m measure, what string) error {
 		}
 		if r, ok := g.(orb.Ring); ok && isConvex(r) {
 			b := r.Bound()
-			t := m.tolC // the same tolerance as the centroid itself (1e-9*(1+scale) in the exact domain)
+			t := m.tolC // the same tolerance as the centroid itself (1e-9*scale in the exact domain)
 			if c[0] < b.Min[0]-t || c[0] > b.Max[0]+t || c[1] < b.Min[1]-t || c[1] > b.Max[1]+t {
 				return fmt.Errorf("%s: centroid %v of a convex ring is outside its bound %v", what, c, b)
 			}
 		}
 	}
 	if !m.cOK && m.loose != nil {
-		t := 1e-9 * (1 + m.scale)
+		t := 1e-9 * m.scale
 		b := *m.loose
 		if !finite(c[0]) || !finite(c[1]) || c[0] < b.Min[0]-t || c[0] > b.Max[0]+t || c[1] < b.Min[1]-t || c[1] > b.Max[1]+t {
 			return fmt.Errorf("%s: centroid %v of zero-length lines is not inside the bound %v of their points", what, c, b)
@@ -178,64 +247,17 @@ func respell(r orb.Ring, k int, rev bool) orb.Ring {
 // translate returns g moved by t, and whether every coordinate sum was exact.
 func translate(g orb.Geometry, t orb.Point) (orb.Geometry, bool) {
 	exact := true
-	mv := func(p orb.Point) orb.Point {
-		var out orb.Point
+	out := mapPoints(g, func(p orb.Point) orb.Point {
+		var q orb.Point
 		for k := 0; k < 2; k++ {
-			out[k] = p[k] + t[k]
-			if radd(rat(p[k]), rat(t[k])).Cmp(rat(out[k])) != 0 {
+			q[k] = p[k] + t[k]
+			if radd(rat(p[k]), rat(t[k])).Cmp(rat(q[k])) != 0 {
 				exact = false
 			}
 		}
-		return out
-	}
-	pts := func(ps []orb.Point) []orb.Point {
-		out := make([]orb.Point, len(ps))
-		for i, p := range ps {
-			out[i] = mv(p)
-		}
-		return out
-	}
-	var rec func(g orb.Geometry) orb.Geometry
-	rec = func(g orb.Geometry) orb.Geometry {
-		switch v := g.(type) {
-		case orb.Point:
-			return mv(v)
-		case orb.MultiPoint:
-			return orb.MultiPoint(pts(v))
-		case orb.LineString:
-			return orb.LineString(pts(v))
-		case orb.Ring:
-			return orb.Ring(pts(v))
-		case orb.Bound:
-			return orb.Bound{Min: mv(v.Min), Max: mv(v.Max)}
-		case orb.MultiLineString:
-			out := make(orb.MultiLineString, len(v))
-			for i, l := range v {
-				out[i] = pts(l)
-			}
-			return out
-		case orb.Polygon:
-			out := make(orb.Polygon, len(v))
-			for i, r := range v {
-				out[i] = pts(r)
-			}
-			return out
-		case orb.MultiPolygon:
-			out := make(orb.MultiPolygon, len(v))
-			for i, p := range v {
-				out[i] = rec(p).(orb.Polygon)
-			}
-			return out
-		case orb.Collection:
-			out := make(orb.Collection, len(v))
-			for i, m := range v {
-				out[i] = rec(m)
-			}
-			return out
-		}
-		return g
-	}
-	return rec(g), exact
+		return q
+	})
+	return out, exact
 }
 
 func mapRings(g orb.Geometry, f func(orb.Ring) orb.Ring) orb.Geometry {
@@ -489,9 +511,10 @@ func inDomain(c Case) bool {
 }
 
 func checkCase(c Case) error {
-	if !inDomain(c) {
+	if !inDomain(c) || c.K < -64 || c.K > 64 {
 		return nil
 	}
+	c = c.scaled()
 	if c.G.V == nil && c.Op != "points" {
 		return fmt.Errorf("harness: nil geometry")
 	}
